@@ -16,8 +16,8 @@ var HeaderCombos = []HdrCombo{
 	{"integer", "date"}, {"array", "uuid"},
 }
 
-// HeaderCatalogue: one server-only package (the Go client does not compile when one header name is
-// declared at service and method level: duplicate helper function) with three services.
+// HeaderCatalogue: one package (client + server; before e425100 the Go client did not compile when one
+// header name was declared more than once: duplicate helper function) with three services.
 //
 //	Types : no service headers; method T<i> requires X-Val of HeaderCombos[i]
 //	Merge : service headers X-Tenant (required uuid), X-Opt (optional integer), X-Both (required integer);
@@ -64,7 +64,8 @@ func HeaderCatalogue() *Request {
 	).WithHeaders(&Header{Name: "X-S", Type: "string", Format: "email", Required: true})
 	f.Services = []*Service{types, merge, multi}
 	r := OneFile(id, pkg, f)
-	r.Tags = []string{"runtime", "server-only", "headers"}
+	// not "server-only": since e425100 the Go client emits each header helper once and compiles
+	r.Tags = []string{"runtime", "headers"}
 	return r
 }
 
@@ -79,6 +80,7 @@ func ErrorCatalogue() *Request {
 		M("CreateReq", F("name", 1, "string"), F("inner", 2, "", Msg(pkg+".Inner")), F("items", 3, "", Msg(pkg+".Inner"), Rep()),
 			F("by_key", 4, "", Msg(pkg+".Inner"), MapOf("string")), F("count", 5, "int32")),
 		M("GetReq", F("id", 1, "string"), F("limit", 2, "int32", Query("limit", false)), F("mode", 3, "string", Query("mode", true))),
+		M("UpdReq", F("id", 1, "string"), F("limit", 2, "int32", Query("limit", false)), F("name", 3, "string")),
 		M("Resp", F("ok", 1, "bool"), F("echo", 2, "string")),
 		M("NotFoundError", F("resource_type", 1, "string"), F("resource_id", 2, "string"), F("code", 3, "int32")),
 		M("QuotaError", F("limit", 1, "int64", I64("NUMBER")), F("reason", 2, "string")),
@@ -89,28 +91,11 @@ func ErrorCatalogue() *Request {
 		RPC("Get", pkg+".GetReq", pkg+".Resp", "GET", "/items/{id}"),
 		RPC("Guarded", pkg+".CreateReq", pkg+".Resp", "POST", "/guarded").
 			WithHeaders(&Header{Name: "X-Token", Type: "integer", Required: true}),
+		// every stage of the binding middleware can fail on this one: header, body, path/query value, rule
+		RPC("Update", pkg+".UpdReq", pkg+".Resp", "PUT", "/things/{id}").
+			WithHeaders(&Header{Name: "X-Upd", Type: "integer", Required: true}),
 	)}
 	r := OneFile(id, pkg, f)
 	r.Tags = []string{"runtime", "errors"}
-	return r
-}
-
-// ErrorCatalogueTS: the error catalogue without the GET route that has both a path variable and
-// query parameters (the TS server emitter declares `const url` twice for such routes and the module
-// does not load: C13's subject), so that the TS server's catch block can be driven.
-func ErrorCatalogueTS() *Request {
-	r := ErrorCatalogue()
-	r.ID = "rterrts"
-	f := r.Files[0]
-	f.Path = "rterrts/a.proto"
-	f.GoPackage = "verifgen/rterrts;rterrts"
-	svc := f.Services[0]
-	var ms []*Method
-	for _, m := range svc.Methods {
-		if m.Name != "Get" {
-			ms = append(ms, m)
-		}
-	}
-	svc.Methods = ms
 	return r
 }
